@@ -115,6 +115,24 @@ def git_matrix():
         return None, ['harness problem: %r' % (ex,)]
     finally: p.cleanup()
 
+def url_matrix():
+    """every attribute of a url SCM that changes what the checkout does is distinguished, with and without a checksum"""
+    p = P.Project(prefix='c02u-'); seen = {}
+    try:
+        for digest in (None, 'a' * 40):
+            for extra in ({}, {'dir': 'sub'}, {'dir': 'other'}, {'fileName': 'renamed.tar'}, {'extract': False}, {'stripComponents': 1}, {'fileMode': 0o755}):
+                scm = {'scm': 'url', 'url': 'https://example.invalid/pkg.tar'}
+                if digest: scm['digestSHA1'] = digest
+                scm.update(extra)
+                p.write({'recipes': {'r0': {'root': True, 'checkoutSCM': scm, 'buildScript': 'true\n', 'packageScript': 'true\n'}}, 'config': {}})
+                q = I.query(p); vid = q['r0']['steps']['src']['vid']; key = json.dumps([digest is not None, extra], sort_keys=True)
+                if vid in seen: return {'kind': 'same-variant-id-different-content', 'scm_a': seen[vid], 'scm_b': key, 'what': 'url SCM attributes (dir / fileName / extract / stripComponents / fileMode, with or without checksum) not distinguished'}, [key]
+                seen[vid] = key
+        return None, ['url attribute matrix']
+    except Exception as ex:
+        return None, ['harness problem: %r' % (ex,)]
+    finally: p.cleanup()
+
 def host_stream_collision():
     """F-C02: fingerprint (host) parts of the arguments are concatenated unframed"""
     p = P.Project(prefix='c02h-')
@@ -144,7 +162,7 @@ def replay(rep):
     n = 40 if thorough else 8
     tried = 0; distinct = set(); samples = []; problems = 0; found = None
     with cf.ThreadPoolExecutor(max_workers=8) as ex:
-        futs = [ex.submit(git_matrix), ex.submit(host_stream_collision)] + [ex.submit(one_case, seed * 1000 + i) for i in range(n)]
+        futs = [ex.submit(git_matrix), ex.submit(url_matrix), ex.submit(host_stream_collision)] + [ex.submit(one_case, seed * 1000 + i) for i in range(n)]
         for f in cf.as_completed(futs):
             w, log = f.result(); tried += 1
             if log and (str(log[-1]).startswith('harness problem') or str(log[-1]).startswith('(project invalid')): problems += 1; samples.append({'problem': log[-1]}) if len(samples) < 3 else None; continue
@@ -154,5 +172,5 @@ def replay(rep):
     if found is not None: return {'reproduced': True, 'tried': tried, 'witness': found}
     if problems > tried // 2: return {'reproduced': None, 'detail': 'harness problems in %d of %d cases: %s' % (problems, tried, samples[:2])}
     return {'reproduced': False, 'tried': tried, 'distinct': len(distinct), 'samples': samples,
-            'bound': '%d generated projects (2-4 recipes + class + tool provider + git SCM) x 18 single edits with revert; git submodule matrix (6 settings); directed host-stream shape' % n,
+            'bound': '%d generated projects (2-4 recipes + class + tool provider + git SCM) x 18 single edits with revert; git submodule matrix (6 settings); url SCM attribute matrix (14 settings); directed host-stream shape' % n,
             'detail': 'hashed environments equal the declared non-weak sets, ids are a bijection of step content, every edit changed exactly the dependent ids and reverted cleanly'}
